@@ -55,7 +55,11 @@ let rec fnode_str (F (n, ks)) =
 (* consecutive text chunks are merged: write granularity is not an observable here *)
 let chunks_str cs =
   let out = ref [] and cur = ref [] in
-  let flush () = if !cur <> [] then (out := ("t" ^ hex_of_str (List.concat (List.rev !cur))) :: !out; cur := []) in
+  let flush () =
+    (* empty writes never reach the io.Writer (bufio does not flush an empty buffer) *)
+    let bytes = List.concat (List.rev !cur) in
+    if bytes <> [] then out := ("t" ^ hex_of_str bytes) :: !out;
+    cur := [] in
   List.iter (function
     | CText s -> cur := s :: !cur
     | CEnc (e, f) ->
@@ -96,6 +100,42 @@ let handle line =
   | ["spec"; ld; li; md; mi; items] ->
       let f = forest_of_items (items_of items) [] in
       "ok t" ^ hex_of_str (render (bf_of ld li md mi) (List.map trie_of f))
+  | ["hist"; ops] ->
+      let opt_h s = if s = "N" then None else Some (nat_of_int (int_of_string s)) in
+      let opt_k s = if s = "-" then None else Some (nat_of_int (int_of_string s)) in
+      let exts_plus s = if s = "-" then [] else List.map str_of_hex (String.split_on_char '+' s) in
+      let parse_op o = match String.split_on_char ',' o with
+        | ["R"; n] -> PNewRoot (str_of_hex n)
+        | ["A"; h; n] -> PAdd (nat_of_int (int_of_string h), str_of_hex n)
+        | [("O" | "Od"); h; e; d; ld; li; md; mi; exts] ->
+            POutput (opt_h h, { c_bf = bf_of ld li md mi; c_enc = enc_of e; c_dry = (d = "1"); c_exts = exts_plus exts; c_noiter = false })
+        | [("W" | "Wd"); h; ld; li; md; mi; f] -> PWalk (opt_h h, bf_of ld li md mi, opt_k f)
+        | [("I" | "Id"); h; ld; li; md; mi; k] -> PWalkIter (opt_h h, bf_of ld li md mi, opt_k k)
+        | [("o" | "od"); e; d; n; ld; li; md; mi; exts; doc] ->
+            PMdOutput ({ c_bf = bf_of ld li md mi; c_enc = enc_of e; c_dry = (d = "1"); c_exts = exts_plus exts; c_noiter = (n = "1") }, str_of_hex doc)
+        | [("w" | "wd"); ld; li; md; mi; f; doc] -> PMdWalk (bf_of ld li md mi, opt_k f, str_of_hex doc)
+        | _ -> failwith ("op " ^ o) in
+      let outs = prun world0 (List.map parse_op (String.split_on_char ';' ops)) in
+      String.concat "|" (List.map (function
+        | OHandle h -> "h" ^ string_of_int (int_of_nat h)
+        | OOutput (cs, r) -> res_str r ^ " " ^ chunks_str cs
+        | OWalk (vs, r) -> res_str r ^ " " ^ (match vs with [] -> "-" | _ -> String.concat ";" (List.map visit_str vs))
+        | OBad -> "bad") outs)
+  | ["specwalk"; ld; li; md; mi; items] ->
+      let f = List.map trie_of (forest_of_items (items_of items) []) in
+      let vs = spec_visits (bf_of ld li md mi) f in
+      "ok " ^ (match vs with [] -> "-" | _ -> String.concat ";" (List.map visit_str vs))
+  | ["classdoc"; input] ->
+      let (rows, e) = scan_lines (str_of_hex input) in
+      (match classify_rows rows with
+       | VOk items ->
+           (match e with ScanTooLong -> "too_long" | ScanEOF ->
+            "ok " ^ (match items with [] -> "-" | _ ->
+              String.concat "," (List.map (fun (d, n) -> Printf.sprintf "%d:%s" (int_of_nat d) (match n with [] -> "_" | _ -> hex_of_str n)) items)))
+       | VBad (i, r) ->
+           let rs = match r with RNoBullet -> "no_bullet" | REmptyText -> "empty_text" | RMixed -> "mixed"
+             | RNotMultiple -> "not_multiple" | RJump -> "jump" | RNoRoot -> "no_root" in
+           Printf.sprintf "bad %d %s %s" (int_of_nat i) rs (hex_of_str (List.nth rows (int_of_nat i))))
   | ["parse"; rows] ->
       let res = parse_all p0 (hexlist rows) in
       String.concat "," (List.map (function
